@@ -22,6 +22,8 @@ func c03Cfg(s *EnumSpec, v []int) RCfg {
 			{Dests: []string{"*.wild.example.org"}, Protocol: "tcp", NextHop: "127.0.3.2:5090"},
 			// an exact entry for a host the wildcard entry also matches (and whose text is no longer than the pattern)
 			{Dests: []string{"a.wild.example.org"}, Protocol: "udp", NextHop: "127.0.3.4:5085"},
+			// a literal entry written with capitals (the To host is spelled exactly like it)
+			{Dests: []string{"Gold.Example.org"}, Protocol: "udp", NextHop: "127.0.3.3:5061"},
 			// one entry with several destinations, the wildcard not first
 			{Dests: []string{"multi.example.org", "*.multi.example.org", "other-multi.example.org"}, Protocol: "udp", NextHop: "127.0.2.2:5070"}},
 		Hosts: [][2]string{{"proxy.example.com", "127.0.0.1"}, {"nh.example.net", "127.0.2.1"}, {"1st.example.net", "127.0.3.1"}, {"3gpp-nh.example.net", "127.0.2.1"}},
@@ -88,7 +90,7 @@ func c03Msg(s *EnumSpec, v []int) *WMsg {
 		routes = []string{"<" + hop + ">", "<sip:127.0.2.2:5070;lr>"}
 	}
 	to := map[string]string{"nomatch": "nomatch.example.org", "exact": "static.example.org", "wildcard": "x.wild.example.org", "exact-under-wildcard": "a.wild.example.org",
-		"wildcard-second-dest": "x.multi.example.org", "exact-third-dest": "other-multi.example.org"}[s.Val(v, "tohost")]
+		"wildcard-second-dest": "x.multi.example.org", "exact-third-dest": "other-multi.example.org", "exact-capitals": "Gold.Example.org"}[s.Val(v, "tohost")]
 	ruri := map[string]string{
 		"foreign": "sip:bob@foreign.example.net", "service-host": "sip:bob@svc.example.com", "regex-only": "sip:12345@num.example.com",
 		"user-at-host": "sip:carol@pbx.example.com", "wrong-user": "sip:dave@pbx.example.com", "urn": "urn:service:sos", "tel": "tel:+15551234",
@@ -263,7 +265,7 @@ func init() {
 			{Name: "hopport", Vals: []string{"absent", "5060", "5070"}},
 			{Name: "hoptransport", Vals: []string{"absent", "udp", "tcp", "TCP", "tls", "sctp", "UDP"}, Quick: 5},
 			{Name: "hoplr", Vals: []string{"lr", "none"}},
-			{Name: "tohost", Vals: []string{"nomatch", "exact", "wildcard", "exact-under-wildcard", "wildcard-second-dest", "exact-third-dest"}},
+			{Name: "tohost", Vals: []string{"nomatch", "exact", "wildcard", "exact-under-wildcard", "wildcard-second-dest", "exact-third-dest", "exact-capitals"}},
 			{Name: "table", Vals: []string{"no-default", "default-udp", "default-tls", "empty"}, Quick: 2},
 			{Name: "ruri", Vals: []string{"foreign", "service-host", "regex-only", "regex-user-match", "regex-user-nomatch", "regex-user-match-2", "user-at-host", "wrong-user", "urn", "tel", "listener", "listener-noport", "listener-wrong-port", "nouser-regex-with-at", "nouser-regex-without-at", "substring-user", "service-host-nouser"}, Quick: 15},
 			{Name: "keep", Vals: []string{"off", "true", "Yes", "0"}, Quick: 2},
